@@ -8,7 +8,7 @@ claim_<facet>_<scaffold><n>_<mode>   unclaim / claim cycles of interleaving comm
 """
 import decimal
 
-from symx.env import NoTracing, check, Fail, NATIVE, pick, R
+from symx.env import NoTracing, check, Fail, NATIVE, pick, R, set_load_factor
 from symx import docenv
 from symx.docenv import text_of, Snapshot
 from autobean_refactor import models
@@ -122,6 +122,7 @@ def make_view(scaf_name, n, vi, op, facet, pre=None, twin=False):
         assert (k == fixed_k) if fixed_k is not None else (0 <= k <= max_k)
         assert 0 <= v0 < nv and 0 <= v1 < nv and 0 <= t <= n + 1 and 0 <= pd < nd
         with NoTracing():
+            set_load_factor(3 if n >= 2 else 1000)
             f = docenv.PARSER.parse(text, M.File)
             parent = sc.get_parent(f)
             raw = getattr(parent, sc.raw_attr)
